@@ -3,7 +3,7 @@ be discharged, on every enumerated path that reaches it, by the decisions taken 
 (interval / symbolic guards on buffer lengths, Some-ness facts, bounded arithmetic) or by a single-symbol
 allow entry with a reason. Nothing is executed; paths come from zrules.sym."""
 from .sym import Sym, show, walk_expr, Interval, FLIP, PathExplosion, try_from_decision
-from .common import short, strip_casts
+from .common import short, strip_casts, END_ACCESSORS
 from .facts import callee_name, fmt_span
 
 READ_SIZES = {"get_u8": 1, "get_i8": 1, "get_u16": 2, "get_u16_le": 2, "get_i16": 2, "get_u32": 4, "get_u32_le": 4, "get_i32": 4,
@@ -137,6 +137,13 @@ class LenFacts:
                 k = (norm_base(x[2][0]), x[3][0] if x[3] else 0)
                 if k == key or view_key(x[2][0]) == key:
                     self.iv.meet_cmp("Eq", 0, truth)
+                continue
+            if e[0] == "discr" and e[1][0] in ("pure", "call") and short(e[1][1]) in END_ACCESSORS and len(e[1][2]) == 1 and \
+                    c in (("eq", 0), ("eq", 1), ("notin", (0,))):
+                # `match buf.first() { Some(..) => .., None => .. }`: Some exactly when LEN >= 1
+                r = e[1]
+                if view_key(r[2][0]) == key or (norm_base(r[2][0]), r[3][0] if (r[0] == "pure" and r[3]) else 0) == key:
+                    self.iv.meet_cmp("Ge", 1, c != ("eq", 0))
                 continue
             if x[0] == "pure" and short(x[1]) == "has_remaining" and len(x[2]) == 1:
                 k = (norm_base(x[2][0]), x[3][0] if x[3] else 0)
